@@ -553,7 +553,17 @@ pub fn run(scn: &Scn, ctx: &Ctx, scratch: &Path) {
                 let lists = t.doc.as_ref().map(|d| d.files.iter().any(|f| f.toi == toi)).unwrap_or(false);
                 let expires_us = t.doc.as_ref().and_then(|d| d.expires).map(|e| e.saturating_sub(NTP_OFFSET) * 1_000_000).unwrap_or(0);
                 match (lists, t.complete_at, &t.error) {
-                    (true, Some(c), None) => seen.contains(t.xml.as_deref().unwrap_or(&[])) && trace.pkts.iter().any(|p| p.dec.toi == toi && p.idx > c && p.t_us + 2_000_000 < expires_us),
+                    // (the receiver keeps a bounded list of current instances: the listing instance must be one of the
+                    // five most recent distinct instances completely emitted before the packet)
+                    (true, Some(c), None) => {
+                        seen.contains(t.xml.as_deref().unwrap_or(&[]))
+                            && trace.pkts.iter().any(|p| {
+                                p.dec.toi == toi && p.idx > c && p.t_us + 2_000_000 < expires_us && {
+                                    let newer: BTreeSet<u32> = txs.iter().filter(|x| x.complete_at.map(|cx| cx > c && cx < p.idx).unwrap_or(false) && x.instance_id != t.instance_id).map(|x| x.instance_id).collect();
+                                    newer.len() < 5
+                                }
+                            })
+                    }
                     _ => false,
                 }
             });
